@@ -465,87 +465,153 @@ pub fn atomics(n: usize) -> Objs {
 // Plain Rust text of a program (public loom API only), stored in replay files
 // ------------------------------------------------------------------------------------------
 
+/// A self-contained `#[test]` that runs the program under `loom::model` and prints the set of
+/// outcomes (same notation as the replay file). Ops the generator does not cover are emitted as
+/// comments and recorded as "?".
 pub fn rust_test(p: &Program) -> String {
     let mut s = String::new();
     let o = &p.objs;
+    let n = p.threads.len();
     let _ = writeln!(s, "// {}", p.text());
-    let _ = writeln!(s, "// Results are collected per thread in `r<t>`; compare the printed tuples with the replay file.");
-    let _ = writeln!(s, "#[test]\nfn replay_{}() {{", p.short_id());
-    let _ = writeln!(s, "    use loom::sync::atomic::{{AtomicUsize, Ordering::*, fence}};");
-    let _ = writeln!(s, "    use std::sync::Arc as SArc;");
-    let _ = writeln!(s, "    loom::model(|| {{");
+    let _ = writeln!(s, "#[test]\n#[allow(unused, clippy::all)]\nfn replay_{}() {{", p.short_id());
+    let _ = writeln!(s, "    use loom::sync::atomic::{{fence, AtomicUsize, Ordering::*}};");
+    let _ = writeln!(s, "    use std::sync::{{Arc as SArc, Mutex as SMutex}};");
+    let _ = writeln!(s, "    let seen: SArc<SMutex<std::collections::BTreeSet<String>>> = Default::default();");
+    let _ = writeln!(s, "    let seen2 = seen.clone();");
+    let _ = writeln!(s, "    loom::model(move || {{");
+    let mut names: Vec<String> = vec![];
     for (i, v) in o.atomics.iter().enumerate() {
         let _ = writeln!(s, "        let a{} = SArc::new(AtomicUsize::new({}));", i, v);
+        names.push(format!("a{}", i));
     }
     for i in 0..o.cells {
         let _ = writeln!(s, "        let c{} = SArc::new(loom::cell::UnsafeCell::new(0u64));", i);
+        names.push(format!("c{}", i));
     }
     for i in 0..o.mutexes {
         let _ = writeln!(s, "        let m{} = SArc::new(loom::sync::Mutex::new(()));", i);
+        names.push(format!("m{}", i));
     }
     for i in 0..o.rwlocks {
         let _ = writeln!(s, "        let l{} = SArc::new(loom::sync::RwLock::new(()));", i);
+        names.push(format!("l{}", i));
     }
     for i in 0..o.condvars {
         let _ = writeln!(s, "        let cv{} = SArc::new(loom::sync::Condvar::new());", i);
+        names.push(format!("cv{}", i));
     }
     for i in 0..o.notifies {
         let _ = writeln!(s, "        let n{} = SArc::new(loom::sync::Notify::new());", i);
+        names.push(format!("n{}", i));
     }
     for i in 0..o.chans {
         let _ = writeln!(s, "        let (tx{0}, rx{0}) = loom::sync::mpsc::channel::<u64>();", i);
+        let _ = writeln!(s, "        let rx{0} = SArc::new(SMutex::new(Some(rx{0})));", i);
+        names.push(format!("tx{}", i));
+        names.push(format!("rx{}", i));
     }
-    let _ = writeln!(s, "        // threads (guards of locks are kept in Option slots and dropped by the unlock ops)");
-    for (t, ops) in p.threads.iter().enumerate() {
-        let _ = writeln!(s, "        // T{}:", t);
-        for (i, op) in ops.iter().enumerate() {
-            let _ = writeln!(s, "        //   r{}[{}] = {}", t, i, rust_op(op));
+    let _ = writeln!(s, "        let main_thread = loom::thread::current();");
+    let _ = writeln!(s, "        let res: SArc<SMutex<Vec<Vec<String>>>> = SArc::new(SMutex::new(vec![vec![]; {}]));", n);
+    names.push("main_thread".into());
+    names.push("res".into());
+    // child thread bodies
+    for t in 1..n {
+        let _ = writeln!(s, "        let body{} = {{", t);
+        for nm in &names {
+            let _ = writeln!(s, "            let {0} = {0}.clone();", nm);
         }
+        let _ = writeln!(s, "            move || {{");
+        emit_thread(&mut s, p, t, "                ");
+        let _ = writeln!(s, "                res.lock().unwrap()[{}] = r;", t);
+        let _ = writeln!(s, "            }}");
+        let _ = writeln!(s, "        }};");
     }
-    let _ = writeln!(s, "    }});\n}}");
+    for t in 1..n {
+        let _ = writeln!(s, "        let mut body{0} = Some(body{0});", t);
+        let _ = writeln!(s, "        let mut h{}: Option<loom::thread::JoinHandle<()>> = None;", t);
+    }
+    emit_thread(&mut s, p, 0, "        ");
+    let _ = writeln!(s, "        res.lock().unwrap()[0] = r;");
+    let _ = writeln!(s, "        let out = res.lock().unwrap().iter().map(|t| t.join(\",\")).collect::<Vec<_>>().join(\"|\");");
+    let _ = writeln!(s, "        seen2.lock().unwrap().insert(out);");
+    let _ = writeln!(s, "    }});");
+    let _ = writeln!(s, "    for o in seen.lock().unwrap().iter() {{\n        println!(\"{{}}\", o);\n    }}");
+    let _ = writeln!(s, "}}");
     s
 }
 
-fn rust_op(op: &Op) -> String {
-    let body = match &op.k {
-        K::Load { a, mo } => format!("a{}.load({})", a, mo.rust()),
-        K::Store { a, v, mo } => format!("a{}.store({}, {})", a, v, mo.rust()),
-        K::Swap { a, v, mo } => format!("a{}.swap({}, {})", a, v, mo.rust()),
-        K::FetchAdd { a, v, mo } => format!("a{}.fetch_add({}, {})", a, v, mo.rust()),
-        K::Cas { a, exp, new, s, f } => format!("a{}.compare_exchange({}, {}, {}, {})", a, exp, new, s.rust(), f.rust()),
-        K::Fence { mo } => format!("fence({})", mo.rust()),
-        K::UnsyncLoad { a } => format!("unsafe {{ a{}.unsync_load() }}", a),
-        K::WithMut { a } => format!("a{}.with_mut(|v| *v)  /* through a raw pointer */", a),
-        K::Await { a, mo, want } => format!("loop {{ let v = a{}.load({}); if v == {} {{ break v }} loom::thread::yield_now(); }}", a, mo.rust(), want),
-        K::CellRead { c } => format!("c{}.with(|p| unsafe {{ *p }})", c),
-        K::CellWrite { c } => format!("c{}.with_mut(|p| unsafe {{ *p += 1 }})", c),
-        K::Lock { m } => format!("g_m{0} = Some(m{0}.lock().unwrap())", m),
-        K::TryLock { m } => format!("g_m{0} = m{0}.try_lock().ok()", m),
-        K::Unlock { m } => format!("drop(g_m{}.take())", m),
-        K::Read { l } => format!("g_l{0} = Some(l{0}.read().unwrap())", l),
-        K::TryRead { l } => format!("g_l{0} = l{0}.try_read().ok()", l),
-        K::UnlockR { l } | K::UnlockW { l } => format!("drop(g_l{}.take())", l),
-        K::Write { l } => format!("g_l{0} = Some(l{0}.write().unwrap())", l),
-        K::TryWrite { l } => format!("g_l{0} = l{0}.try_write().ok()", l),
-        K::Wait { cv, m } => format!("g_m{1} = Some(cv{0}.wait(g_m{1}.take().unwrap()).unwrap())", cv, m),
-        K::NotifyOne { cv } => format!("cv{}.notify_one()", cv),
-        K::NotifyAll { cv } => format!("cv{}.notify_all()", cv),
-        K::NWait { n } => format!("n{}.wait()", n),
-        K::NNotify { n } => format!("n{}.notify()", n),
-        K::Park => "loom::thread::park()".to_string(),
-        K::Unpark { t } => format!("thread_T{}.unpark()", t),
-        K::Send { ch, v } => format!("tx{}.send({})", ch, v),
-        K::Recv { ch } => format!("rx{}.recv()", ch),
-        K::TryRecv { ch } => format!("rx{}.try_recv()", ch),
-        K::DropRx { ch } => format!("drop(rx{})", ch),
-        K::Spawn { t } => format!("loom::thread::spawn(T{})", t),
-        K::Join { t } => format!("handle_T{}.join().unwrap()", t),
-        K::Yield => "loom::thread::yield_now()".to_string(),
-        other => op_text(&Op { g: None, k: other.clone() }),
-    };
-    match &op.g {
-        Some(g) => format!("if r[{}] == {} {{ {} }}", g.idx, g.res, body),
-        None => body,
+fn emit_thread(s: &mut String, p: &Program, t: usize, ind: &str) {
+    let o = &p.objs;
+    let _ = writeln!(s, "{}let mut r: Vec<String> = vec![];", ind);
+    for i in 0..o.mutexes {
+        let _ = writeln!(s, "{}let mut g_m{}: Option<loom::sync::MutexGuard<'_, ()>> = None;", ind, i);
+    }
+    for i in 0..o.rwlocks {
+        let _ = writeln!(s, "{}let mut g_l{}r: Option<loom::sync::RwLockReadGuard<'_, ()>> = None;", ind, i);
+        let _ = writeln!(s, "{}let mut g_l{}w: Option<loom::sync::RwLockWriteGuard<'_, ()>> = None;", ind, i);
+    }
+    for op in &p.threads[t] {
+        let code = rust_op(t, &op.k);
+        match &op.g {
+            Some(g) => {
+                let _ = writeln!(s, "{}if r[{}] == \"{}\" {{ {} }} else {{ r.push(\"skip\".into()); }}", ind, g.idx, g.res, code);
+            }
+            None => {
+                let _ = writeln!(s, "{}{}", ind, code);
+            }
+        }
+    }
+    for i in 0..o.mutexes {
+        let _ = writeln!(s, "{}drop(g_m{});", ind, i);
+    }
+    for i in 0..o.rwlocks {
+        let _ = writeln!(s, "{}drop(g_l{}r);\n{}drop(g_l{}w);", ind, i, ind, i);
+    }
+}
+
+fn rust_op(t: usize, k: &K) -> String {
+    let u = "r.push(\"_\".into());";
+    match k {
+        K::Load { a, mo } => format!("r.push(a{}.load({}).to_string());", a, mo.rust()),
+        K::Store { a, v, mo } => format!("a{}.store({}, {}); {}", a, v, mo.rust(), u),
+        K::Swap { a, v, mo } => format!("r.push(a{}.swap({}, {}).to_string());", a, v, mo.rust()),
+        K::FetchAdd { a, v, mo } => format!("r.push(a{}.fetch_add({}, {}).to_string());", a, v, mo.rust()),
+        K::Cas { a, exp, new, s, f } => format!("r.push(match a{}.compare_exchange({}, {}, {}, {}) {{ Ok(v) => format!(\"Ok{{}}\", v), Err(v) => format!(\"Err{{}}\", v) }});", a, exp, new, s.rust(), f.rust()),
+        K::Fence { mo } => format!("fence({}); {}", mo.rust(), u),
+        K::UnsyncLoad { a } => format!("let _ = unsafe {{ a{}.unsync_load() }}; {}", a, u),
+        K::Await { a, mo, want } => format!("loop {{ let v = a{}.load({}); if v == {} {{ r.push(v.to_string()); break; }} loom::thread::yield_now(); }}", a, mo.rust(), want),
+        K::CellRead { c } => format!("c{}.with(|p| unsafe {{ std::ptr::read_volatile(p) }}); {}", c, u),
+        K::CellWrite { c } => format!("c{}.with_mut(|p| unsafe {{ *p += 1 }}); {}", c, u),
+        K::Lock { m } => format!("g_m{0} = Some(m{0}.lock().unwrap()); {1}", m, u),
+        K::TryLock { m } => format!("match m{0}.try_lock() {{ Ok(g) => {{ g_m{0} = Some(g); r.push(\"Ok0\".into()); }} Err(_) => r.push(\"Err0\".into()) }}", m),
+        K::Unlock { m } => format!("drop(g_m{}.take()); {}", m, u),
+        K::Read { l } => format!("g_l{0}r = Some(l{0}.read().unwrap()); {1}", l, u),
+        K::TryRead { l } => format!("match l{0}.try_read() {{ Ok(g) => {{ g_l{0}r = Some(g); r.push(\"Ok0\".into()); }} Err(_) => r.push(\"Err0\".into()) }}", l),
+        K::UnlockR { l } => format!("drop(g_l{}r.take()); {}", l, u),
+        K::Write { l } => format!("g_l{0}w = Some(l{0}.write().unwrap()); {1}", l, u),
+        K::TryWrite { l } => format!("match l{0}.try_write() {{ Ok(g) => {{ g_l{0}w = Some(g); r.push(\"Ok0\".into()); }} Err(_) => r.push(\"Err0\".into()) }}", l),
+        K::UnlockW { l } => format!("drop(g_l{}w.take()); {}", l, u),
+        K::Wait { cv, m } => format!("g_m{1} = Some(cv{0}.wait(g_m{1}.take().unwrap()).unwrap()); {2}", cv, m, u),
+        K::NotifyOne { cv } => format!("cv{}.notify_one(); {}", cv, u),
+        K::NotifyAll { cv } => format!("cv{}.notify_all(); {}", cv, u),
+        K::NWait { n } => format!("n{}.wait(); {}", n, u),
+        K::NNotify { n } => format!("n{}.notify(); {}", n, u),
+        K::Park => format!("loom::thread::park(); {}", u),
+        K::Unpark { t: tt } if *tt == 0 => format!("main_thread.unpark(); {}", u),
+        K::Unpark { t: tt } if t == 0 => format!("h{}.as_ref().unwrap().thread().unpark(); {}", tt, u),
+        K::Send { ch, v } => format!("let _ = tx{}.send({}); {}", ch, v, u),
+        K::Recv { ch } => format!("{{ let rx = rx{0}.lock().unwrap().take().unwrap(); let x = rx.recv(); *rx{0}.lock().unwrap() = Some(rx); r.push(match x {{ Ok(v) => format!(\"Ok{{}}\", v), Err(_) => \"Err0\".into() }}); }}", ch),
+        K::TryRecv { ch } => format!("{{ let rx = rx{0}.lock().unwrap().take().unwrap(); let x = rx.try_recv(); *rx{0}.lock().unwrap() = Some(rx); r.push(match x {{ Ok(v) => format!(\"Ok{{}}\", v), Err(_) => \"Err0\".into() }}); }}", ch),
+        K::DropRx { ch } => format!("drop(rx{}.lock().unwrap().take()); {}", ch, u),
+        K::ForgetRx { ch } => format!("std::mem::forget(rx{}.lock().unwrap().take()); {}", ch, u),
+        K::Spawn { t: tt } => format!("h{0} = Some(loom::thread::spawn(body{0}.take().unwrap())); {1}", tt, u),
+        K::Join { t: tt } => format!("h{}.take().unwrap().join().unwrap(); {}", tt, u),
+        K::Yield => format!("loom::thread::yield_now(); {}", u),
+        K::StopExploring => format!("loom::stop_exploring(); {}", u),
+        K::Explore => format!("loom::explore(); {}", u),
+        K::SkipBranch => format!("loom::skip_branch(); {}", u),
+        K::PanicHere { tag } => format!("panic!(\"injected panic #{}\");", tag),
+        other => format!("/* not covered by the generated test: {} */ r.push(\"?\".into());", op_text(&Op { g: None, k: other.clone() })),
     }
 }
 
